@@ -280,6 +280,16 @@ func (c *Case) judgeOnce(run *ev.Run, o *runObs) (copied, kept int) {
 				continue
 			}
 			pid, ok := platformNode(g, top, el.E.Platform)
+			if !ok && !postOK && archAbsent(g, top, el.E.Platform) {
+				// no entry of the index has the architecture at all: under no selection rule is there a
+				// "digest of the configured platform", so the tag cannot have been mirrored - and it is not
+				// even there. A run that reports success has promised otherwise.
+				run.Violation("selected-missing/"+el.E.Type+"/platform-absent-from-index", fmt.Sprintf("run %d exited 0 but selected tag %s:%s (source %s:%s, an index without any %s entry) does not exist at the target: the failure to resolve the platform was not reported", o.Run+1, el.TgtRepo, el.TgtTag, el.SrcRepo, el.SrcTag, el.E.Platform),
+					wit(map[string]any{"element": elWit(el)}))
+				allowedTag[key] = "selected"
+				allowBackup(el)
+				continue
+			}
 			if !ok {
 				// no (unique) exact match: a successful run says nothing we can judge
 				allowedTag[key] = "unjudged: platform not resolvable by exact match"
